@@ -509,6 +509,15 @@ pub fn run(args: &Args, which: &str) -> i32 {
                     *current.lock().unwrap() = Some(cfg.clone());
                     crate::evidence::watchdog::touch();
                     let obs = run_config(cfg).await;
+                    if count % 64 == 7 {
+                        // determinism audit: the same configuration again must give the same observation
+                        let again = run_config(cfg).await;
+                        crate::det::AUDITS.fetch_add(1, std::sync::atomic::Ordering::Relaxed);
+                        if format!("{again:?}") != format!("{obs:?}") {
+                            println!("MACHINERY-ERROR nondeterministic virtual-time execution: config {} gave {obs:?} and then {again:?}", cfg_json(cfg));
+                            std::process::exit(2);
+                        }
+                    }
                     let r = if which_s == "C10" { check_c10(cfg, &obs) } else { check_c11(cfg, &obs) };
                     if cfg.attempts.len() >= 2 {
                         traces.insert((obs.start.clone(), obs.result.clone(), obs.t_r));
